@@ -32,6 +32,8 @@ FLAGNAMES = list(FLAGS)
 
 
 def check(toks, resp, mode, build):
+    if toks[0] == "fmtfail":
+        return C.check_fmtfail(toks, resp, mode)
     flags = toks[1]
     w = None if toks[2] == "-" else int(toks[2])
     p = None if toks[3] == "-" else int(toks[3])
@@ -134,6 +136,10 @@ def gen(rng, tier, shard, batch):
                 q = rng.getrandbits(rng.randrange(1, 30))
                 c = (q * P10[sh] + 5 * P10[sh - 1]) * rng.choice((1, -1))
             reqs.append(req(fl, w, p, c, s))
+            if rng.random() < 0.02:
+                # a write into a sink that fails part-way; the following requests must be unaffected
+                c2, s2 = G.dec(rng)
+                reqs.append("fmtfail %d %s %s" % (rng.randrange(0, 45), rng.choice(("-", str(rng.randrange(0, 30)))), G.fD(c2, s2)))
     return reqs
 
 
